@@ -13,7 +13,7 @@ import (
 
 var (
 	c16Addrs  = []string{"A", "AB", "B", "Aé"} // prefix-related names on purpose
-	c16Tokens = []string{"", "T1", "T10", "T"}
+	c16Tokens = []string{"", "T1", "T10", "T", "X_T1", "T_T"} // also ids with an underscore whose last part is another token
 	c16Kinds  = []balance.BalanceType{balance.BalanceTypeToken, balance.BalanceTypeAllowed, balance.BalanceTypeGiven,
 		balance.BalanceTypeTokenLocked, balance.BalanceTypeAllowedLocked, balance.BalanceTypeTokenExternalLocked, balance.BalanceTypeAllowedExternalLocked}
 	c16KName  = map[balance.BalanceType]string{balance.BalanceTypeToken: "Token", balance.BalanceTypeAllowed: "Allowed", balance.BalanceTypeGiven: "Given",
@@ -278,7 +278,7 @@ func c16Case(c *Ctx, steps []c16Step, nAddr int) error {
 
 func genC16(c *Ctx) error {
 	c.ShardSize = 40
-	c.Notes["rule"] = "histories of 10-30 steps over all 7 balance kinds (createIndex is called by the kind's name) x 4 addresses x 4 tokens (names that are prefixes of each other, the empty token): transactions of 1-4 put/add/sub/move operations through the tx/batch caches or on a raw stub, committed or discarded, now and then followed in the SAME batch by a second transaction that takes everything back; optional legacy primaries written without inverse entries; createIndex via Invoke; every owners listing is followed by direct balance.Get of every address. Plus ledgers with 210-460 legacy holders of one kind (among the first ones also token-less balances), indexed and listed, one of them with 1001-1120 holders of ONE token. Non-trivial: at least one inverse entry exists at the end."
+	c.Notes["rule"] = "histories of 10-30 steps over all 7 balance kinds (createIndex is called by the kind's name) x 4 addresses x 6 tokens (names that are prefixes of each other, the empty token, ids with an underscore whose last part is another token): transactions of 1-4 put/add/sub/move operations through the tx/batch caches or on a raw stub, committed or discarded, now and then followed in the SAME batch by a second transaction that takes everything back; optional legacy primaries written without inverse entries; createIndex via Invoke; every owners listing is followed by direct balance.Get of every address. Plus ledgers with 210-460 legacy holders of one kind (among the first ones also token-less balances), indexed and listed, one of them with 1001-1120 holders of ONE token. Non-trivial: at least one inverse entry exists at the end."
 	rng := c.Rng
 	n := c.N(240, 6000)
 	for i := 0; i < n; i++ {
